@@ -126,6 +126,12 @@ fn module_analyze(
     }
 
     let mut main_vec = Vec::new();
+    #[cfg(feature = "verif-hooks")]
+    let file_tree_map = {
+        let mut v: Vec<_> = file_tree_map.into_iter().collect();
+        crate::verif_hooks::permute_by_key("module_analyze.workspaces", &mut v, |(id, _)| *id);
+        v
+    };
     for (workspace_id, tree_list) in file_tree_map {
         let mut context = AnalyzeContext::new(config.clone());
         context.tree_list = tree_list;
